@@ -105,7 +105,9 @@ fn oracle(c: &Case, acc: &mut Acc) -> CaseResult {
                     b = b.psk(*n, v).map_err(|x| Fail::new(format!("{name}: Builder::psk({n}): {x:?}")))?;
                 }
                 let res = if init { b.build_initiator() } else { b.build_responder() };
-                let should = !*fallback && psk_indices.iter().all(|n| *n as usize <= nm);
+                // every psk index written in the name must fit (indices >= 10 never fit and cannot be supplied)
+                let named: Vec<u32> = mods.split('+').filter_map(|m| m.strip_prefix("psk").and_then(|d| d.parse().ok())).collect();
+                let should = !*fallback && named.iter().all(|n| *n as usize <= nm);
                 match res {
                     Ok(_) => ensure!(should, "{name}: build succeeded although the modifiers do not fit the pattern ({nm} messages) or are not implemented"),
                     Err(err) => {
@@ -225,6 +227,29 @@ pub fn run(ctx: &Ctx) {
             }
             let mods = idx.iter().map(|n| format!("psk{n}")).collect::<Vec<_>>().join("+");
             cases.push(Case::Mods { pattern: p.name.clone(), mods, psk_indices: idx, fallback: false });
+        }
+        // order must not matter: every ordered pair over psk0..psk9, and ordered triples over a boundary set
+        for a in 0..=9u8 {
+            for b in 0..=9u8 {
+                if a != b && !(a < b && b <= 4) {
+                    cases.push(Case::Mods { pattern: p.name.clone(), mods: format!("psk{a}+psk{b}"), psk_indices: vec![a, b], fallback: false });
+                }
+            }
+        }
+        let nmm = p.msgs.len() as u8;
+        let bset = [0u8, 1, nmm, nmm + 1, 9];
+        for a in bset {
+            for b in bset {
+                for c in bset {
+                    if a != b && b != c && a != c {
+                        cases.push(Case::Mods { pattern: p.name.clone(), mods: format!("psk{a}+psk{b}+psk{c}"), psk_indices: vec![a, b, c], fallback: false });
+                    }
+                }
+            }
+        }
+        for big in [10u16, 42, 200, 255] {
+            cases.push(Case::Mods { pattern: p.name.clone(), mods: format!("psk{big}+psk0"), psk_indices: vec![0], fallback: false });
+            cases.push(Case::Mods { pattern: p.name.clone(), mods: format!("psk1+psk{big}"), psk_indices: vec![1], fallback: false });
         }
         cases.push(Case::Mods { pattern: p.name.clone(), mods: "fallback".into(), psk_indices: vec![], fallback: true });
         cases.push(Case::Mods { pattern: p.name.clone(), mods: "fallback+psk0".into(), psk_indices: vec![0], fallback: true });
